@@ -159,10 +159,10 @@ fn short_mend(e: &ModelEnd) -> String {
     }
 }
 
-fn run_family(menu: &[(&'static str, T)], n: usize, all_joins: bool, total: &Mutex<Acc>) {
+fn run_family(menu: &[(&'static str, T)], n: usize, join_mode: u8, total: &Mutex<Acc>) {
     let base = menu.len() as u64;
     let count = pow(base, n);
-    let joins = join_patterns(n, all_joins);
+    let joins = if join_mode == 0 { vec![0u32] } else { join_patterns(n, join_mode == 2) };
     (0..count).into_par_iter().for_each_init(
         Acc::default,
         |_, i| {
@@ -190,7 +190,7 @@ fn run_family(menu: &[(&'static str, T)], n: usize, all_joins: bool, total: &Mut
                     o => format!("{:?}", o),
                 }).or_insert(0) += 1;
                 for k in &idxs {
-                    acc.templates_run.insert(*k);
+                    acc.templates_run.insert(hash_str(menu[*k].0) as usize);
                 }
                 if acc.samples.is_empty() && m.jumps > 2 && i % 977 == 0 {
                     acc.samples.push(json!({"program": render_program(&prog), "reference_output": truncate(&m.output(), 60), "reference_end": format!("{:?}", mend)}));
@@ -232,27 +232,52 @@ pub fn run(thorough: bool) -> Report {
     let full = full_menu();
     let core = core_menu();
     let lp = loop_menu();
+    let nest = nest_menu();
+    let data = data_menu();
+    let fnm = fn_menu();
+    let arr = array_menu();
+    let brm = branch_menu();
     let mut fams = vec![];
-    let mut plan: Vec<(&str, &Vec<(&'static str, T)>, usize, bool)> = vec![
-        ("full", &full, 1, true),
-        ("full", &full, 2, true),
-        ("full", &full, 3, false),
-        ("core", &core, 4, false),
+    // (menu name, menu, statements, join layouts: 2 = all, 1 = none/all/each single, 0 = none only)
+    let mut plan: Vec<(&str, &Vec<(&'static str, T)>, usize, u8)> = vec![
+        ("full", &full, 1, 2),
+        ("full", &full, 2, 2),
+        ("full", &full, 3, 1),
+        ("core", &core, 4, 1),
+        ("loop", &lp, 5, 1),
+        ("nest", &nest, 5, 1),
+        ("nest", &nest, 6, 0),
+        ("data", &data, 5, 1),
+        ("data", &data, 6, 0),
+        ("fn", &fnm, 4, 1),
+        ("fn", &fnm, 5, 0),
+        ("array", &arr, 4, 1),
+        ("array", &arr, 5, 0),
+        ("branch", &brm, 4, 2),
+        ("branch", &brm, 5, 0),
     ];
     if thorough {
-        plan.push(("full", &full, 3, true));
-        plan.push(("full", &full, 4, false));
-        plan.push(("core", &core, 5, false));
-        plan.push(("loop", &lp, 6, true));
-    } else {
-        plan.push(("loop", &lp, 5, false));
+        plan.push(("full", &full, 3, 2));
+        plan.push(("full", &full, 4, 0));
+        plan.push(("core", &core, 5, 1));
+        plan.push(("loop", &lp, 6, 2));
+        plan.push(("nest", &nest, 6, 1));
+        plan.push(("nest", &nest, 7, 0));
+        plan.push(("data", &data, 6, 1));
+        plan.push(("data", &data, 7, 0));
+        plan.push(("fn", &fnm, 5, 1));
+        plan.push(("fn", &fnm, 6, 0));
+        plan.push(("array", &arr, 5, 1));
+        plan.push(("array", &arr, 6, 0));
+        plan.push(("branch", &brm, 5, 2));
+        plan.push(("branch", &brm, 6, 0));
     }
-    for (name, menu, n, all) in plan {
-        run_family(menu, n, all, &total);
-        fams.push(json!({"menu": name, "menu_size": menu.len(), "statements": n, "join_layouts": if all {"all 2^(n-1)"} else {"none, all, each single join"}}));
+    for (name, menu, n, jm) in plan {
+        run_family(menu, n, jm, &total);
+        fams.push(json!({"menu": name, "menu_size": menu.len(), "statements": n, "join_layouts": match jm { 2 => "all 2^(n-1)", 1 => "none, all, each single join", _ => "none (one statement per line)" }}));
     }
     let acc = total.into_inner().unwrap();
-    if acc.templates_run.len() < full.len() {
+    if acc.templates_run.len() < full.len() + 8 {
         machinery("vacuous: not every statement template was executed");
     }
     if acc.ends.len() < 4 {
